@@ -35,7 +35,7 @@ if os.path.realpath(REPO) != "/repo":
     # sensitivity runs against a scratch copy of the repository: keep their
     # build output, evidence and findings away from the real ones
     _tag = hashlib.sha256(os.path.realpath(REPO).encode()).hexdigest()[:10]
-    WORK = os.path.join("/tmp", "verif-scratch-" + _tag)
+    WORK = os.path.join(os.environ.get("VERIF_SCRATCH_ROOT", "/tmp"), "verif-scratch-" + _tag)
     EVID = os.path.join(WORK, "evidence")
     FOUND = os.path.join(WORK, "found")
 NCPU = min(os.cpu_count() or 4, 16)
